@@ -97,6 +97,20 @@ def limit_programs(quick):
             else:
                 exp = ("reject",) if far else ("obs", obs)
             P.append(("jump-%s-%d" % (form, n), tmpl % body, exp, "binary" if n > 5000 else "probe"))
+    # ---- captured variables summed over two enclosing levels, initialised without literals (the inner function stays among
+    # the first constants)
+    for na, nb in ((128, 127), (128, 128), (200, 100), (254, 1), (254, 2), (255, 255)):
+        la = " ".join("let a%d = z;" % i for i in range(na))
+        lb = " ".join("let b%d = z;" % i for i in range(nb))
+        uses = " + ".join(["a%d" % i for i in range(na)] + ["b%d" % i for i in range(nb)])
+        src = "let z = 1; let __o = []; fn o() { %s fn() { %s fn() { %s } } } push(__o, o()()());" % (la, lb, uses)
+        P.append(("captured-two-levels-%d+%d" % (na, nb), src, ("obs", [str(na + nb)]) if na + nb <= 255 else ("reject",), "probe"))
+    # ---- backward jumps (the closing jump of loop / while, continue) are emitted with their final target
+    for n, far in ((15000, False), (16500, True)):
+        body = " ".join("a;" for _ in range(n))
+        P.append(("jump-back-loop-%d" % n, "let a = 1; let arr = [0, 1, 2, 3]; let k = 0; %s loop { k = k + 1; arr[k]; }" % body, ("reject",) if far else ("accept",), "binary"))
+        P.append(("jump-back-loop-in-fn-%d" % n, "let a = 1; let arr = [0, 1, 2, 3]; fn f() { let k = 0; %s loop { k = k + 1; arr[k]; } } f();" % body,
+                  ("reject",) if far else ("accept",), "binary"))
     # ---- the short-circuit jump (&&, ||, filter pattern -> action) over a long right operand / action
     for n, far in ((15000, False), (22000, True)):
         arr = "[" + ", ".join("a" for _ in range(n)) + "]"
